@@ -244,7 +244,7 @@ func main() {
 		return
 	}
 	defer drv.Close()
-	run.Res.Rule = "schemas from gen.SchemaGen (sizes 1..5); documents = gen.ValidDoc (schema-directed, valid by construction) and the same document after 1-3 typed mutations (gen.Mutate, 38 kinds aimed at the 24 rules); parsed by the real parser; non-trivial = parses and has >= 3 selections; distinct by (schema, document text)"
+	run.Res.Rule = "schemas from gen.SchemaGen (sizes 1..5); documents = gen.ValidDoc (schema-directed, valid by construction) and the same document after 1-3 typed mutations (gen.Mutate, 46 kinds aimed at the 24 rules); parsed by the real parser; non-trivial = parses and has >= 3 selections; distinct by (schema, document text)"
 
 	if msg := checkTables(drv); msg != "" {
 		run.Violation("model tables differ from the library: "+msg, map[string]string{"tables": msg}, true)
@@ -337,7 +337,15 @@ func main() {
 		if res != nil {
 			if realValid {
 				if !started {
-					problem("valid document, but graphql.Do did not start executing (errors %v)", res.Errors)
+					// the one legitimate way: the operation's kind has no root type in the schema (an execution-time
+					// error raised before ExecutionDidStart; no validation rule of this edition covers it)
+					noRoot := len(res.Errors) == 1 && strings.HasPrefix(res.Errors[0].Message, "Schema is not configured for") &&
+						(c.Schema.Mutation == nil || c.Schema.Subscription == nil)
+					if noRoot {
+						run.Tag("do:operation-kind-without-root-type")
+					} else {
+						problem("valid document, but graphql.Do did not start executing (errors %v)", res.Errors)
+					}
 				}
 			} else {
 				if started || res.Data != nil || len(res.Errors) == 0 {
@@ -531,15 +539,7 @@ func main() {
 	kinds := gen.MutationKindNames()
 	for i := 0; i < n && !run.TooManyViolations(); i++ {
 		r := hx.Fork(run.Seed, i)
-		sd := (&gen.SchemaGen{R: r, Size: 1 + i%5}).Schema()
-		gen.AddCustomDirectives(r, sd)
-		gen.AddDisjointAbstract(r, sd)
-		gen.AddListShapes(r, sd)
-		gen.AddListShapes(r, sd)
-		gen.AddDisjointAbstract(r, sd)
-		gen.AddListShapes(r, sd)
-		gen.AddListShapes(r, sd)
-		text, meta := gen.ValidDoc(r, sd, 1+(i/5)%6)
+		sd, text, meta := mkCase(r, i)
 		opName := ""
 		if len(meta.Doc.Ops) > 0 {
 			opName = meta.Doc.Ops[0].Name
@@ -584,14 +584,22 @@ func main() {
 	finish(run, modelled, unmodelled)
 }
 
-// regen rebuilds schema + valid document IR of case i (a private copy for mutation).
-func regen(seed uint64, i int) *gen.ValidMeta {
-	r := hx.Fork(seed, i)
+// mkCase: schema (SchemaGen + custom directives for every location + disjoint abstract types + list-shaped
+// arguments + a subscription root) and a valid document for it, from the stream of case i.
+func mkCase(r *hx.Rng, i int) (*gq.SchemaDesc, string, *gen.ValidMeta) {
 	sd := (&gen.SchemaGen{R: r, Size: 1 + i%5}).Schema()
 	gen.AddCustomDirectives(r, sd)
 	gen.AddDisjointAbstract(r, sd)
 	gen.AddListShapes(r, sd)
-	_, meta := gen.ValidDoc(r, sd, 1+(i/5)%6)
+	gen.AddSubscriptionRoot(r, sd)
+	text, meta := gen.ValidDocWith(r, sd, 1+(i/5)%6, gen.ValidDocOpts{Subscriptions: true})
+	return sd, text, meta
+}
+
+// regen rebuilds schema + valid document IR of case i (a private copy for mutation).
+func regen(seed uint64, i int) *gen.ValidMeta {
+	r := hx.Fork(seed, i)
+	_, _, meta := mkCase(r, i)
 	return meta
 }
 
